@@ -373,6 +373,8 @@ def _apply_contract(eng, c, env, cl):
     eng.apply_w_stack.append(w)
     try:
         for e in c.ensures:
+            if not _wanted(eng, e):
+                continue          # a quantified invariant the function under verification does not talk about
             eng.assume(_ens(eng, e, post_env, fr, snap))
         ghost_free_pre = not any(t in r for r in c.requires for t in ("den(", "den_as(", "bden(", "sden(", "opden", "all01", "andf", "orf", "xorf"))
         if "a" in eng.facts.ghosts and ghost_free_pre and \
@@ -412,6 +414,26 @@ def _apply_contract(eng, c, env, cl):
     if any("warned_unsat" in e for e in c.ensures):
         eng.warned.append(SV(w, "bool"))
     return result
+
+
+LAZY_TOKENS = ("mapinv(",)
+
+
+def _wanted(eng, ens):
+    """post-conditions about the quantified mapping invariant are assumed at a call site only when the function
+    under verification itself states something about it (dropping an assumption is always sound; it keeps the
+    quantifiers out of the thousands of proofs that do not need them)"""
+    toks = [t for t in LAZY_TOKENS if t in ens]
+    if not toks:
+        return True
+    tgt = eng.target
+    if tgt is None:
+        return True
+    text = getattr(tgt, "_alltext", None)
+    if text is None:
+        parts = list(tgt.requires) + list(tgt.ensures) + [str(l.get("invariant", "")) for l in (tgt.loops or {}).values()]
+        text = tgt._alltext = " ".join(parts)
+    return any(t in text for t in toks)
 
 
 def _describe(v):
